@@ -87,7 +87,14 @@ type Fix struct {
 	Lin            scale.Linear
 	Log            scale.Log
 	Strings        []string
-	all            []*[]float64
+	// BG2 is a BiGraph that no harness code ever touches (not even Snapshot), so
+	// that any lazily built internal state is first built by the calls under test.
+	BG2 graph.BiGraph
+	// Big is a path-like graph with 1040 nodes (ids cross the 1024 growth boundary).
+	Big graph.IntGraph
+	// LoessF is ONE fitted function shared by all callers.
+	LoessF func(float64) float64
+	all    []*[]float64
 }
 
 func spare(x []float64) []float64 {
@@ -150,6 +157,18 @@ func NewFix(v int) *Fix {
 	f.Lin = scale.Linear{Min: 0.3, Max: 7.2}
 	f.Log, _ = scale.NewLog(0.5, 700, 10)
 	f.Strings = []string{"a\"b", "x\\y\n"}
+	f.BG2 = graph.MakeBiGraph(graph.IntGraph{{1, 2}, {3}, {3, 1}, {0, 4}, {}})
+	big := make(graph.IntGraph, 1040)
+	for i := range big {
+		if i+1 < len(big) {
+			big[i] = append(big[i], i+1)
+		}
+		if i%97 == 5 {
+			big[i] = append(big[i], i/2, i)
+		}
+	}
+	f.Big = big
+	f.LoessF = fit.LOESS(append([]float64{}, f.X3...), append([]float64{}, f.Y1...), 1, 1)
 	return f
 }
 
@@ -410,6 +429,20 @@ var Entries = []Entry{
 		}
 		return e.Bytes()
 	}, "graphalg"},
+	{"graphalg.IDom(shared BiGraph, first use)", func(f *Fix) []byte {
+		e := (&Enc{}).Is(graphalg.IDom(f.BG2, 0))
+		for _, df := range graphalg.DomFrontier(f.BG2, 0, nil) {
+			e.Is(df)
+		}
+		return e.Bytes()
+	}, "graphalg"},
+	{"graphalg.PreOrder(1040 nodes)", func(f *Fix) []byte {
+		pre := graphalg.PreOrder(f.Big, 0)
+		return (&Enc{}).I(len(pre), pre[len(pre)-1], pre[1030]).Bytes()
+	}, "graphalg"},
+	{"fit.LOESS(shared fitted function)", func(f *Fix) []byte {
+		return (&Enc{}).F(f.LoessF(0.5), f.LoessF(1.25), f.LoessF(-0.5)).Bytes()
+	}, "fit"},
 	{"graphalg.SimplifyMulti", func(f *Fix) []byte {
 		s := graphalg.SimplifyMulti(f.G1)
 		e := graphEnc(&Enc{}, s)
